@@ -351,8 +351,38 @@ fn api_text_side(run: &Run, subjects: &[u32]) -> Stats {
                         ds.insert(d);
                     }
                 }
+                // class strings are expanded by a separate lowering: /^[\q{c x}]$/iv against every partner d + x / X
+                let qre = if *fs == "iv" {
+                    let pat: Vec<u32> = "^[\\q{".chars().map(|x| x as u32).chain([c, 'x' as u32]).chain("}]$".chars().map(|x| x as u32)).collect();
+                    // syntax characters and class-set punctuators cannot stand unescaped inside \q{...}
+                    if cc.is_alphanumeric() || c > 0x7F {
+                        match subject::compile(&pat, Flags::parse("iv"), false) {
+                            CompileOutcome::Ok(r) => Some(r),
+                            other => {
+                                st.violation(&run.known, "C10", "class string does not compile", 1, case(fs, c, "/^[\\q{c x}]$/iv does not compile", J::s("Ok"), J::s(&format!("{:?}", other))));
+                                None
+                            }
+                        }
+                    } else {
+                        None
+                    }
+                } else {
+                    None
+                };
                 for d in ds {
                     let Some(dc) = char::from_u32(d) else { continue };
+                    if let Some(qre) = &qre {
+                        for tail in ['x', 'X'] {
+                            let t: String = [dc, tail].iter().collect();
+                            st.add("evaluations", 1);
+                            st.add("validated", 1);
+                            let exp = fold::same(c, d, true);
+                            let got = subject::guarded(u64::MAX, || qre.find(&t).is_some());
+                            if got != Outcome::Ok(exp) {
+                                st.violation(&run.known, "C10", &format!("class string folding differs under iv {}", block(c)), 4, case(fs, c, &format!("/^[\\q{{U+{:04X} x}}]$/iv on U+{:04X} {}", c, d, tail), J::Bool(exp), J::s(&format!("{:?}", got))).set("partner", J::u(d as u64)));
+                            }
+                        }
+                    }
                     let s: String = [cc, dc].iter().collect();
                     st.add("evaluations", 1);
                     st.add("validated", 1);
@@ -473,7 +503,7 @@ pub fn c10(run: &mut Run) -> Stats {
         run.exhaustive = true; // the hook-level sweep is complete; the API part is over K (stated in rule)
     }
     run.rule = format!(
-        "hook level (complete): for every code point 0..=0x10FFFF and both modes, the partition induced by Canonicalize, the compile-time literal expansion and the class closure (singletons, windows, 256-blocks, large spans) equal the oracle; API level: /c/, /[c]/, /[^c]/ under i, iu, iv over a haystack holding every code point of K once (K = {} candidates: members of any non-trivial class in oracle or implementation, neighbours, UTF-8 length boundaries, ASCII), backreference / \\w / \\W / [\\w] / \\b and every \\b / \\B position of c alone and between word / non-word neighbours (both executors) for every c in K{}; the K x K scans run with and without the program's start predicate; non-trivial = the code point has a non-trivial class",
+        "hook level (complete): for every code point 0..=0x10FFFF and both modes, the partition induced by Canonicalize, the compile-time literal expansion and the class closure (singletons, windows, 256-blocks, large spans) equal the oracle; API level: /c/, /[c]/, /[^c]/ under i, iu, iv over a haystack holding every code point of K once (K = {} candidates: members of any non-trivial class in oracle or implementation, neighbours, UTF-8 length boundaries, ASCII), backreference / class string [\\q{{c x}}] (iv) / \\w / \\W / [\\w] / \\b and every \\b / \\B position of c alone and between word / non-word neighbours (both executors) for every c in K{}; the K x K scans run with and without the program's start predicate; non-trivial = the code point has a non-trivial class",
         k.len(),
         if thorough { "; thorough: /c/ for every scalar over the all-scalars haystack, classes of K over all scalars, classes of all scalars over K, text side for all scalars" } else { "" }
     );
